@@ -3,7 +3,9 @@ as Garden source (two independent construction routes), for C12 / C13."""
 import itertools
 
 ALPHA = ["a", '"', "\\", "\n", "\t", " ", "\u00e9", "\U0001F600", "{"]
-PRE = "struct P { x: Int, y: String }\nenum E2 { V1, V2(Int), W1(String) }\n"
+# Q has P's fields, R3 has them as a prefix: values of different types are never equal, whatever their fields
+PRE = ("struct P { x: Int, y: String }\nstruct Q { x: Int, y: String }\nstruct R3 { x: Int, y: String, z: Int }\n"
+       "enum E2 { V1, V2(Int), W1(String) }\n")
 
 
 def S(s):
@@ -39,6 +41,14 @@ def ST(x, y):
     return {"k": "Struct", "n": "P", "fs": ["x", "y"], "vs": [x, y]}
 
 
+def STQ(x, y):
+    return {"k": "Struct", "n": "Q", "fs": ["x", "y"], "vs": [x, y]}
+
+
+def STR3(x, y, z):
+    return {"k": "Struct", "n": "R3", "fs": ["x", "y", "z"], "vs": [x, y, z]}
+
+
 def strings(maxlen):
     out = [""]
     for n in range(1, maxlen + 1):
@@ -64,6 +74,7 @@ def containers(vals, small):
     for a, b in small:
         out += [L(a, b), T(a, b), D([("a", a), ("b", b)]), T(a, b, a)]
     out += [L(), T(), D([]), ST(I(1), S("s")), ST(I(-5), S('q"\\')), E("V1"), E("V2", I(3)), E("W1", S("w"))]
+    out += [STQ(I(1), S("s")), STR3(I(1), S("s"), I(0)), STQ(I(-5), S('q"\\'))]
     return out
 
 
